@@ -170,9 +170,9 @@ theorem G_newData_lib {s X X' w} (it : Bool) (h : G s X w) (hx : ∀ j, X' j ↔
   obtain ⟨a, b, c, dd, v, e, x, wf, lt, ff, hh, ii, jj⟩ := h
   constructor <;> unf <;> grind
 
-theorem G_newData_caller {s X w} (it : Bool) (h : G s X w) :
-    G s X (apply (.newData .caller it true) w) := by
-  have hatt : ∀ j, Att (apply (.newData .caller it true) w) j ↔ Att w j := Att_congr rfl rfl
+theorem G_newData_caller {s X w} (it hd : Bool) (h : G s X w) :
+    G s X (apply (.newData .caller it hd) w) := by
+  have hatt : ∀ j, Att (apply (.newData .caller it hd) w) j ↔ Att w j := Att_congr rfl rfl
   obtain ⟨a, b, c, dd, v, e, x, wf, lt, ff, hh, ii, jj⟩ := h
   constructor <;> unf <;> grind
 
